@@ -271,6 +271,40 @@ func gen(c *h.Ctx, r *h.Rng, maxOps int) []string {
 	if step <= 0 {
 		step = 1
 	}
+	// Directed prefix (30 % of the histories): the situations that random walks rarely line up —
+	// a deletion straddling a block boundary followed by head compaction and a restart (the head
+	// tombstone of the upper part must survive WAL replay), and deletions whose range ends exactly
+	// at, or one off, the head's min / max time.
+	if r.Chance(30) {
+		t0 := cur
+		b := (t0/cr + 1) * cr // first block boundary above t0
+		ops = append(ops, "begin")
+		for _, t := range []int64{t0, b - 1, b, b + 1, b + cr/2, b + cr, b + 2*cr + 1, b + 3*cr} {
+			for si := 0; si < nser; si++ {
+				if r.Chance(70) {
+					ops = append(ops, fmt.Sprintf("app %d %d %016x", si, t, math.Float64bits(float64(r.Intn(1000)))))
+				}
+			}
+		}
+		ops = append(ops, "commit")
+		switch r.Intn(4) {
+		case 0:
+			ops = append(ops, fmt.Sprintf("del %d %d %d", b-r.Range(0, 2), b+r.Range(0, 2)+cr/2, r.Intn(nser)))
+		case 1:
+			ops = append(ops, fmt.Sprintf("del %d %d *", b-cr/3, b+1))
+		case 2:
+			ops = append(ops, fmt.Sprintf("del %d %d %d", t0-r.Range(0, 5), t0+r.Range(-1, 1), r.Intn(nser))) // ends at head min ±1
+		default:
+			ops = append(ops, fmt.Sprintf("del %d %d %d", b+3*cr+r.Range(-1, 1), b+4*cr, r.Intn(nser))) // starts at head max ±1
+		}
+		ops = append(ops, fmt.Sprintf("q %d %d", int64(math.MinInt64), int64(math.MaxInt64)), "compact",
+			fmt.Sprintf("q %d %d", int64(math.MinInt64), int64(math.MaxInt64)))
+		if r.Chance(70) {
+			ops = append(ops, "reopen", fmt.Sprintf("q %d %d", int64(math.MinInt64), int64(math.MaxInt64)))
+		}
+		cur = b + 3*cr
+		c.Count("gen:directed-prefix")
+	}
 	inTx := false
 	// A sample that is accepted at Append but dropped at Commit (older than an earlier sample of the
 	// same transaction) still reaches the WAL; whether it lowers Head.MinTime() after a restart
